@@ -295,6 +295,10 @@ class C10(CompSpec):
                     scen["cancel"] = rng.choice([0.01, 0.05])
                     scen["cancel_host"] = rng.choice(["login", "login2"])
                 t["args"]["cls"] = "sim.resub:ResubSim"
+            elif i % 4 == 0:
+                # resubmit-jobs in the window in which the completing round has set the flag but still holds the role
+                scen["resub_in_completion_window"] = 0.7
+                scen["policy"]["park_p"] = rng.choice([0.0, 0.2])
             elif i % 4 == 2:
                 # the same `jade submit-jobs` started twice at once for one new output directory (srun -n 2, a wrapper script
                 # run twice): exactly one of them may create the submission, the other must leave without touching it
@@ -339,6 +343,8 @@ class C10(CompSpec):
             "promoted_rounds_in_simulations": total(sims, "promoted_rounds"),
             "refused_rounds_in_simulations": total(sims, "refused_rounds"),
             "status_observations_in_simulations": total(sims, "obs"),
+            "simulations_with_resubmit_jobs_in_the_completion_window": sum(1 for r in sims if r.get("window_resub")),
+            "of_which_the_command_was_refused_nonzero_exit": sum(1 for r in sims if r.get("window_resub") and r.get("window_resub_rc") not in (0, None)),
             "refused_resubmit_commands_in_simulations": total(sims, "refusals_checked"),
         }
 
